@@ -6,7 +6,7 @@
    registration and the two connect notifications happen in one step (one critical section), in
    the order registry-wide then per-link; removal and the two disconnect notifications likewise;
    the set-up goroutine reaches the disconnect step only after both reader loops have returned. *)
-From Verif Require Import Base Link LinkProofs LinkInvH.
+From Verif Require Import Base Link LinkProofs LinkInvH LinkInvT.
 
 Theorem hook_protocol :
   forall calls s,
@@ -62,3 +62,13 @@ Proof.
   rewrite L, L. reflexivity.
 Qed.
 Print Assumptions D5_refuted.
+
+(* ... and once the link has ended, its context is cancelled, its reads have returned and nothing of
+   panrpc can run on by itself, both pairs have been delivered: exactly one connect pair and exactly
+   one disconnect pair *)
+Theorem hooks_complete_after_teardown :
+  forall calls s,
+    lreachable fixed calls s -> memN 0%N (cancelled s) = true -> reads_failed s -> quiescent s ->
+    rev (hooks_of (evs s)) = [(true, false); (true, true); (false, false); (false, true)].
+Proof. exact teardown_hooks_complete_lemma. Qed.
+Print Assumptions hooks_complete_after_teardown.
